@@ -242,10 +242,12 @@ func c01Fields(c *Ctx) {
 	}
 	// import stores each data field back under its key (forward: the put argument's slice contains the field load)
 	puts := map[string][]*ssa.Call{}
+	seenPut := map[*ssa.Call]bool{}
 	for _, f := range []*ssa.Function{alloc, cmks} {
-		allInstrs(f, func(in ssa.Instruction) {
-			if cl, ok := in.(*ssa.Call); ok {
+		allInstrsDeep(f, nil, func(in ssa.Instruction) {
+			if cl, ok := in.(*ssa.Call); ok && !seenPut[cl] {
 				if g := cl.Call.StaticCallee(); g != nil && pkgOf(g) == pkgKeystore && (strings.HasPrefix(g.Name(), "put") || g.Name() == "updateChildNum") {
+					seenPut[cl] = true
 					puts[g.Name()] = append(puts[g.Name()], cl)
 				}
 			}
